@@ -12,7 +12,7 @@ USERS = [UC, UA, UB, UZ]
 NOUSER = ("", "")
 LEVELS = [-1, 0, 1, 25, 49, 50, 51, 75, 99, 100, 101]
 FIELDS = ["users_default", "events_default", "state_default", "ban", "redact", "kick", "invite"]
-NOTPI = {"present": False, "signed": False, "hasmxid": False, "hastoken": False, "mxid": "", "mxidserver": "", "token": "", "sigok": False}
+NOTPI = {"present": False, "signed": False, "hasmxid": False, "hastoken": False, "mxid": "", "mxidserver": "", "token": "", "sigkey": ""}
 
 
 def V(k, n=0):
@@ -94,7 +94,7 @@ def event(id_, type_, sender, haskey=False, key="", **kw):
          "membership": kw.get("membership", "absent"), "jauth": kw.get("jauth", NOUSER)[0], "jserver": kw.get("jauth", NOUSER)[1],
          "tpi": kw.get("tpi", dict(NOTPI)), "hascreator": kw.get("hascreator", True), "creator": UC[0], "cserver": UC[1],
          "federate": kw.get("federate", True), "join_rule": kw.get("join_rule", "absent"), "redactsserver": kw.get("redactsserver", ""),
-         "pl": kw.get("pl", empty_pl())}
+         "pl": kw.get("pl", empty_pl()), "tpitop": "k8", "tpilist": kw.get("tpilist", ["k7"])}
     # harness encoding of the content
     if type_ == "m.room.create":
         e["c"] = {"hascreator": e["hascreator"], "creator": e["creator"], "federate": e["federate"]}
@@ -102,13 +102,15 @@ def event(id_, type_, sender, haskey=False, key="", **kw):
         t = e["tpi"]
         e["c"] = {"membership": e["membership"], "jauth": e["jauth"],
                   "tpi": {"present": t["present"], "signed": t["signed"], "hasmxid": t["hasmxid"], "hastoken": t["hastoken"], "mxid": t["mxid"],
-                          "token": t["token"], "sigok": t["sigok"]}}
+                          "token": t["token"], "sigkey": t["sigkey"]}}
     elif type_ == "m.room.join_rules":
         e["c"] = {"join_rule": e["join_rule"]}
     elif type_ == "m.room.power_levels":
         e["c"] = {"pl": cpl(e["pl"])}
     elif type_ == "m.room.redaction":
         e["c"] = {"redactsserver": e["redactsserver"]}
+    elif type_ == "m.room.third_party_invite":
+        e["c"] = {"tpikeys": {"top": e["tpitop"], "list": e["tpilist"]}}
     else:
         e["c"] = {"none": True}
     return e
@@ -120,6 +122,7 @@ def member(id_, sender, target, m, **kw):
 
 def gen_case(rng):
     v = rng.randrange(1, 12)
+    want_tpi = rng.random() < 0.08       # third-party invites: state event and candidate event together
     st = []
     federate = rng.random() < 0.9
     create = event("$create", "m.room.create", UC, True, "", prev=[], auth=[], hascreator=(v < 11), federate=federate)
@@ -137,8 +140,8 @@ def gen_case(rng):
         ms[u] = m
         if m != "absent":
             st.append(member("$m" + u[0], u, u, m))
-    if rng.random() < 0.15:
-        st.append(event("$tpi", "m.room.third_party_invite", rng.choice([UA, UC]), True, "tok"))
+    if rng.random() < (0.85 if want_tpi else 0.1):
+        st.append(event("$tpi", "m.room.third_party_invite", rng.choice([UA, UC]), True, "tok", tpilist=rng.choice([[], ["k7"], ["k8"], ["k7", "k8"], ["k9"]])))
     if rng.random() < 0.3:
         st.append(event("$topic", "m.room.topic", UC, True, ""))
     # candidate event: mostly from a joined user, so that the later rules are reached
@@ -146,22 +149,22 @@ def gen_case(rng):
     sender = rng.choice(joined) if joined and rng.random() < 0.8 else rng.choice(USERS)
     auth = ["$create"] if rng.random() < 0.97 else []
     r = rng.random()
-    if r < 0.45:
+    if r < 0.45 or want_tpi:
         target = rng.choice(USERS)
-        m = rng.choice(["join", "invite", "leave", "ban", "knock"])
+        m = "invite" if want_tpi else rng.choice(["join", "invite", "leave", "ban", "knock"])
         kw = {}
         if m == "join" and v >= 8 and rng.random() < 0.4:
             kw["jauth"] = rng.choice([u for u in USERS if u != target])
-        if m == "invite" and rng.random() < 0.15:
-            sg = rng.random() < 0.8
+        if m == "invite" and (want_tpi or rng.random() < 0.1):
+            sg = rng.random() < 0.85
             mx = rng.choice([target, UZ])
             kw["tpi"] = {"present": True, "signed": sg, "hasmxid": sg and rng.random() < 0.9, "hastoken": sg and rng.random() < 0.9,
-                         "mxid": "", "mxidserver": "", "token": "", "sigok": sg and rng.random() < 0.8}
+                         "mxid": "", "mxidserver": "", "token": "", "sigkey": rng.choice(["k7", "k8", "k8", "k9"]) if sg else ""}
             if kw["tpi"]["hasmxid"]:
                 kw["tpi"]["mxid"], kw["tpi"]["mxidserver"] = mx
             if kw["tpi"]["hastoken"]:
                 kw["tpi"]["token"] = rng.choice(["tok", "tok2"])
-        prev = ["$create"] if (m == "join" and rng.random() < 0.1) else ["$p"]
+        prev = rng.choice([["$create"], ["$create"], [], ["$create", "$p"]]) if (m == "join" and rng.random() < 0.15) else ["$p"]
         e = member("$e", sender, target, m, prev=prev, auth=auth, **kw)
     elif r < 0.65:
         base = pl if pl is not None else empty_pl()
